@@ -104,7 +104,9 @@ def run(ctx):
 
 
 def check_list(ctx, tx, A, spec, det):
-    sgs, e = call(tx.supergates, build(spec))
+    carg = build(spec)
+    sgs, e = call(tx.supergates, carg)
+    ctx.unchanged("supergates", carg, spec)
     if e is not None:
         sig = "supergates:multi-output-shared-logic:block-order-cycle" if (type(e).__name__ == "NetworkXUnfeasible" and shared_logic(A)) else sig_raise(e)
         ctx.side("supergates-raises", False, sig, f"supergates raised {e!r}", det)
